@@ -243,6 +243,20 @@ SPECS["C18"] = dict(
              "   clause at parser level; these clauses are covered by the correspondence only (partial). *)\n")
 
 
+SPECS["C12"] = dict(
+    title="each load is independent of every earlier load in the process",
+    imports=STD + "From Coq Require Import String.\nFrom BB Require Import Syntax Values Eval Tables TablesP Facts FactsP.",
+    items=[
+        dict(name="load_history_independent", comment="for every history of earlier loads (successful or failed, whatever residue a failure leaves in the process-wide tables) the outcome of a load is its outcome in a pristine process"),
+        dict(name="load_state_independent"),
+        dict(name="load_step_denote", comment="... namely the denotation of the script"),
+        dict(name="load_ok_clears"),
+        dict(name="history_independence_refuted", comment="the algorithm WITHOUT the clearing at the start of parse is refuted: a failed load that bound n makes `target dev (shots=n)` load"),
+        dict(name="clear_sites_ok", comment="the clearing sites of the sources are the ones the model assumes (regenerated from listener.py on every run)"),
+    ],
+    examples="(* witnesses: TablesP.witness_old_accepts / witness_new_refuses *)\n")
+
+
 def main():
     which = sys.argv[1:] or sorted(SPECS)
     for p in which:
